@@ -1126,7 +1126,47 @@ pub fn gen_many_cells(rng: &mut Rng) -> (Vec<u32>, Vec<u32>) {
 /// common prefix or suffix), optionally with a second, short run behind a
 /// change.
 pub fn gen_long_anchor_run(rng: &mut Rng) -> (Vec<u32>, Vec<u32>) {
-    let n = (1 << 16) + 10 + rng.usize(5000);
+    gen_long_anchor_run_sized(rng, 16)
+}
+
+/// `bits`: the run has a little more than 2^bits items.  With `bits` above 16
+/// a repeated (hence not unique) marker may sit inside the run on one side:
+/// the anchors are then adjacent on the other side only.
+pub fn gen_long_anchor_run_sized(rng: &mut Rng, bits: u32) -> (Vec<u32>, Vec<u32>) {
+    let n = (1usize << bits) + 10 + rng.usize(5000);
+    let (mut old, mut new) = gen_long_anchor_run_inner(rng, n);
+    if bits > 16 && rng.chance(2, 3) {
+        let side = if rng.chance(1, 2) { &mut new } else { &mut old };
+        let len = side.len();
+        for _ in 0..2 {
+            let at = 10 + rng.usize(len - 20);
+            side.insert(at, 55);
+        }
+    }
+    (old, new)
+}
+
+/// A random sequence of 66 000 - 140 000 items over a large alphabet and a copy
+/// with a handful of point edits (cheap for Myers, but one invocation sees
+/// more than 2^17 items), ending in a long common suffix.
+pub fn gen_big_edited_copy(rng: &mut Rng) -> (Vec<u32>, Vec<u32>) {
+    let n = 66_000 + rng.usize(74_000);
+    let old: Vec<u32> = (0..n).map(|_| 100 + rng.below(5000) as u32).collect();
+    let mut new = old.clone();
+    for _ in 0..1 + rng.usize(6) {
+        let at = rng.usize(new.len() * 3 / 4);
+        match rng.below(3) {
+            0 => {
+                new.remove(at);
+            }
+            1 => new.insert(at, 7 + rng.below(5) as u32),
+            _ => new[at] = 7 + rng.below(5) as u32,
+        }
+    }
+    (old, new)
+}
+
+fn gen_long_anchor_run_inner(rng: &mut Rng, n: usize) -> (Vec<u32>, Vec<u32>) {
     // mostly the differing items around the run are repeated, i.e. not unique
     // themselves: then the lists of unique items of the two sides are equal
     // and the whole run is one `equal` of the unique-item diff even when the
